@@ -270,3 +270,101 @@ def none_fut(ex, st):
 @specfn("some_fut")
 def some_fut(ex, st, f):
     return T.opt_some(Opt(Fut(NONE)), V(Fut(NONE), f.t))
+
+
+# ------------------------------------------------------------------ CoordinatorGroupRebalance._on_join_leader
+classmodel("MemberAssignmentObj", {})
+MEMBER_ASSIGNMENT = Ref("MemberAssignmentObj")
+
+
+@specfn("encoded_assignment")
+def encoded_assignment(ex, st, a):
+    """ConsumerProtocolMemberAssignment.encode(): the wire form, a function of the object (round trip: C11's stand-in)"""
+    import z3
+    f = z3.Function("encoded_assignment", a.t.sort(), ASSIGNMENT_BYTES.sort())
+    return V(ASSIGNMENT_BYTES, f(a.t))
+
+
+@contract(MOD + ":CoordinatorGroupRebalance._on_join_leader", ["C05", "C06"])
+def _(c):
+    """C05 "the assignments members adopt are exactly the ones distributed for that generation": the leader sends, for every
+    member the assignor produced an assignment for, exactly that assignment, and nothing for anybody else; C06: under the
+    generation and member id the JoinGroup reply assigned (kept by the coordinator)"""
+    c.self_("Rebalance")
+    c.param("response", Ref("JoinGroupResponse"))
+    c.returns(Opt(ASSIGNMENT_BYTES))
+    c.no_class_inv = True
+    c.none_raises = True
+    GA = Dict(STR, MEMBER_ASSIGNMENT)
+    c.local("group_assignment", GA)
+    c.local("assignment_req", List(Tup(STR, ASSIGNMENT_BYTES)))
+    c.owns("self._coordinator", "self.group_id")
+    c.call("self._coordinator._perform_assignment", returns=GA, havoc_all=True, raises=["Exception", "CancelledError"],
+           note="GroupCoordinator._perform_assignment: runs the chosen assignor over the members' metadata (bounded C14/C15)")
+    c.call("repr", returns=STR, note="text of the error")
+    c.call("isinstance", returns=BOOL, post=["not result"], note="assignor results are ConsumerProtocolMemberAssignment objects, not bytes")
+    c.call("assignment.encode", returns="encoded_assignment(assignment)", note="wire form of one member's assignment")
+    c.call("SyncGroupRequest", returns=Ref("SyncGroupRequestObj"), post=["fresh(result)", "result.g_generation == a1", "result.g_member_id == a2"],
+           note="SyncGroupRequest builder object (wire form: bounded C11)")
+    c.call("self._send_sync_group_request", returns=Opt(ASSIGNMENT_BYTES), havoc_all=True, raises=["KafkaError", "CancelledError"],
+           note="_send_sync_group_request (under contract)")
+    c.raises("assignment-failed-or-cancelled", "BaseException")
+    c.loop(0, header="for member_id, assignment in group_assignment.items()", invariants=[
+        ("every-entry-is-a-visited-members-own-assignment",
+         "forall(lambda j: implies(0 <= j < len(assignment_req), assignment_req[j][0] in $done"
+         " and assignment_req[j][1] == encoded_assignment(group_assignment[assignment_req[j][0]])))"),
+        ("every-visited-member-has-an-entry",
+         "forall(STR, lambda m: implies(m in $done, exists(lambda j: 0 <= j < len(assignment_req) and assignment_req[j][0] == m)))"),
+    ])
+    c.hook("before", "SyncGroupRequest", [
+        ("assert", "sync-carries-the-identity-the-join-reply-assigned",
+         "a0 == self.group_id and a1 == self._coordinator.generation and a2 == self._coordinator.member_id"),
+        ("assert", "every-entry-is-that-members-own-assignment",
+         "forall(lambda j: implies(0 <= j < len(a4), a4[j][0] in group_assignment"
+         " and a4[j][1] == encoded_assignment(group_assignment[a4[j][0]])))"),
+        ("assert", "every-member-the-assignor-served-gets-its-assignment",
+         "forall(STR, lambda m: implies(m in group_assignment, exists(lambda j: 0 <= j < len(a4) and a4[j][0] == m)))"),
+    ])
+
+
+# replay: the real _on_join_leader over a stub coordinator whose assignor served 1, 3 and 20 members
+_LEADER_SYNC_SCRIPT = '''
+import asyncio, logging, types
+logging.disable(logging.CRITICAL)
+from aiokafka.consumer.group_coordinator import CoordinatorGroupRebalance
+from aiokafka.coordinator.protocol import ConsumerProtocolMemberAssignment
+
+async def one(n):
+    group = {"m%02d" % i: ConsumerProtocolMemberAssignment(0, [("t", [i])], b"") for i in range(n)}
+    coord = types.SimpleNamespace(generation=7, member_id="m00", _group_instance_id=None, _rebalance_timeout_ms=1000)
+    async def perform(response):
+        return group
+    coord._perform_assignment = perform
+    reb = CoordinatorGroupRebalance.__new__(CoordinatorGroupRebalance)
+    reb._coordinator, reb.group_id, reb.coordinator_id = coord, "g", 1
+    sent = []
+    async def send_sync(request):
+        sent.append(request); return b""
+    reb._send_sync_group_request = send_sync
+    await reb._on_join_leader(types.SimpleNamespace())
+    req = sent[0]
+    got = dict(req._group_assignment) if hasattr(req, "_group_assignment") else None
+    if got is None:
+        for name in vars(req):
+            v = getattr(req, name)
+            if isinstance(v, list) and v and isinstance(v[0], tuple):
+                got = dict(v)
+    want = {m: a.encode() for m, a in group.items()}
+    if got != want:
+        missing = sorted(set(want) - set(got or {}))
+        wrong = sorted(m for m in (got or {}) if m in want and got[m] != want[m])
+        return "group of %d: SyncGroup lacks the assignment of %r, carries another member's for %r" % (n, missing[:3], wrong[:3])
+    return None
+
+async def main():
+    return [r for r in [await one(1), await one(3), await one(20)] if r]
+bad = asyncio.run(main())
+VIOLATED = bool(bad); DETAIL = "; ".join(bad)
+'''
+from pyvc.contract import REGISTRY as _RR
+_RR[MOD + ":CoordinatorGroupRebalance._on_join_leader"].replay_fn = lambda model, ob=None: {"script": _LEADER_SYNC_SCRIPT}
